@@ -116,7 +116,10 @@ class World:
                           ("a_u8", V.IntArray(V.Uint8, 6)), ("ab6", V.ByteArray(6)), ("ai4", V.IntArray(V.Int16, 4)),
                           ("af4", V.FloatArray(V.Float, 4)), ("ad4", V.FloatArray(V.Double, 4)),
                           ("ad4f", V.FloatArray(V.Float, 4)), ("sa", V.StructArray(S, 3)), ("ta", V.StructArray(T, 3)),
-                          ("sa2", V.StructArray(S, 2)), ("st", V.Struct(S))])
+                          ("sa2", V.StructArray(S, 2)), ("st", V.Struct(S)),
+                          # donors whose ctypes array type equals that of a target of another descriptor class
+                          # (`c_ubyte * 4`: M.a_u8 is IntArray(Uint8, 4)): only `validate_array` keeps them apart
+                          ("ab4", V.ByteArray(4))])
         self.reg(3, self.N)
         self.reg(4, self.M)
         self.O = mk("O", [("n", V.Struct(self.N)), ("na", V.StructArray(self.N, 2)), ("z", V.Int32())])
